@@ -32,7 +32,8 @@ def Prev.Sim (p : Prev) (q : Rec) : Prop := q.key = p.key ∧ q.rev = p.rev ∧ 
 /-- a plain read worker: no compaction, expiry disabled -/
 def WCfg.Plain (c : WCfg) : Prop := c.compact = false ∧ c.timeout = 0
 
-theorem expireStep_plain {c : WCfg} (hc : c.Plain) (live : Bytes) (r : Rec) : expireStep c live r = none := by
+theorem expireStep_plain {c : WCfg} (hc : c.Plain) (live gone : Bytes) (snap : List Rec) (r : Rec) :
+    expireStep c live gone snap r = none := by
   simp [expireStep, expiry, hc.2]
 
 theorem emitsOf_emitPrev {p : Prev} {q : Rec} (h : p.Sim q) : emitsOf (emitPrev p) = emitR q := by
